@@ -38,6 +38,7 @@ PALETTE = [
     ["p3", "light red,underline", "default", "underline", "#f80", "h12"],
     ["p4", "black,standout", "brown", "standout,bold", "h9", "#0f0"],
     ["p5", "dark cyan,italics,strikethrough", "light cyan", "italics", "#0ff,blink", "g93"],
+    ["p6", "light magenta", "black", "underline", "#ff8800", "#0000d7"],
 ]
 SPEC_ATTRS = [
     ["light green", "dark magenta", 16],
@@ -48,7 +49,108 @@ SPEC_ATTRS = [
     ["yellow,standout", "black", 16],
     ["g35", "g70", 88],
     ["white", "dark gray", 16],
+    ["#ff0000", "#0000ff", 256],
+    ["#d75f00,italics", "#5f00af", 256],
+    ["#f80", "#08c", 88],
+    ["#00cd8b", "#ff0000", 88],
+    ["h40,bold", "g#5c", 88],
+    ["g#12", "g#ee", 256],
+    ["#00ff5f", "#0a141e", 2**24],
 ]
+
+
+# --- the colour notation, written down independently of urwid.display.common -------------------------
+# (urwid manual, "Display Attributes": the 16 basic names; 'hN' = colour number N; '#rgb' = the colour-cube entry
+# nearest to the three hex digits; '#rrggbb' at 88/256 colours = the same through the high nibbles; 'gN' / 'g#xx' = the
+# gray nearest to N percent / to xx; cube and gray levels are xterm's, 256colres.h and 88colres.h.)  The model only
+# answers where the notation leaves no choice: a digit or gray level half-way between two entries, and the way high
+# colours are expressed on a 24-bit screen, are left to the AttrSpec-based expectation.
+BASIC_NAMES = ["black", "dark red", "dark green", "brown", "dark blue", "dark magenta", "dark cyan", "light gray",
+               "dark gray", "light red", "light green", "yellow", "light blue", "light magenta", "light cyan", "white"]  # fmt: skip
+SETTING_NAMES = ("bold", "underline", "standout", "blink", "italics", "strikethrough")
+CUBE_LEVELS = {256: [0x00, 0x5F, 0x87, 0xAF, 0xD7, 0xFF], 88: [0x00, 0x8B, 0xCD, 0xFF]}
+GRAY_LEVELS = {256: [8 + 10 * i for i in range(24)], 88: [0x2E, 0x5C, 0x73, 0x8B, 0xA2, 0xB9, 0xD0, 0xE7]}
+
+
+def _nearest(value: float, levels: list) -> int | None:
+    """Index of the level nearest to value; None when two levels are (nearly) equally near."""
+    d = sorted((abs(value - lv), i) for i, lv in enumerate(levels))
+    if len(d) > 1 and d[1][0] - d[0][0] < 6:
+        return None
+    return d[0][1]
+
+
+def model_colour(part: str, depth: int):  # noqa: PLR0911, PLR0912
+    """("default",) | ("basic", n) | ("i", n) | ("rgb", r, g, b) | None (the model has no opinion)."""
+    part = part.strip()
+    if part in ("", "default"):
+        return ("default",)
+    if part in BASIC_NAMES:
+        return ("basic", BASIC_NAMES.index(part))
+    try:
+        if depth in (88, 256):
+            n = len(CUBE_LEVELS[depth])
+            if part.startswith("h"):
+                v = int(part[1:])
+                return ("i", v) if 0 <= v < depth else None
+            if part.startswith("#") and len(part) in (4, 7):
+                digits = part[1:] if len(part) == 4 else part[1] + part[3] + part[5]
+                idx = []
+                for dch in digits:
+                    k = _nearest(int(dch, 16) * 17, CUBE_LEVELS[depth])
+                    if k is None:
+                        return None
+                    idx.append(k)
+                return ("i", 16 + (idx[0] * n + idx[1]) * n + idx[2])
+            if part.startswith("g"):
+                val = int(part[2:], 16) if part.startswith("g#") else int(part[1:]) * 255 / 100
+                levels = [0, *GRAY_LEVELS[depth], 255]
+                k = _nearest(val, levels)
+                if k is None:
+                    return None
+                if k == 0:
+                    return ("i", 16)
+                if k == len(levels) - 1:
+                    return ("i", 16 + n**3 - 1)
+                return ("i", 16 + n**3 + k - 1)
+            return None
+        if depth == 2**24 and part.startswith("#") and len(part) == 7:
+            v = int(part[1:], 16)
+            return ("rgb", v >> 16, (v >> 8) & 255, v & 255)
+    except ValueError:
+        return None
+    return None
+
+
+def model_attr(fg_desc: str, bg_desc: str, depth: int, fg_bright_is_bold: bool, bg_bright_is_blink: bool):
+    """Terminal-side attributes of (foreground, background) descriptions from the notation alone; None when the
+    model has no opinion on one of the colours."""
+    flags = dict.fromkeys(SETTING_NAMES, False)
+    fg = bg = ("default",)
+    for part in fg_desc.split(","):
+        part = part.strip()  # noqa: PLW2901
+        if part in SETTING_NAMES:
+            flags[part] = True
+        elif part:
+            fg = model_colour(part, depth)
+    for part in bg_desc.split(","):
+        if part.strip():
+            bg = model_colour(part, depth)
+    if fg is None or bg is None:
+        return None
+    out = []
+    for c, bright_flag, setting in ((fg, fg_bright_is_bold, "bold"), (bg, bg_bright_is_blink, "blink")):
+        if c[0] == "default":
+            out.append(DEFAULT)
+        elif c[0] == "basic":
+            if c[1] > 7 and bright_flag:
+                out.append(("i", c[1] - 8))
+                flags[setting] = True
+            else:
+                out.append(("i", c[1]))
+        else:
+            out.append(c)
+    return Attr(out[0], out[1], flags["bold"], flags["italics"], flags["underline"], flags["blink"], flags["standout"], flags["strikethrough"])
 
 
 def make_attr_catalogue():
@@ -135,6 +237,21 @@ class _Run:
                 return AttrSpec(fgh or fg, bgh or bg, c)
         return None
 
+    def palette_desc(self, name: str):
+        """(foreground, background, depth) descriptions of a palette entry at the active colour depth."""
+        if name == "alias":
+            name = "p1"
+        for p in PALETTE:
+            if p[0] == name:
+                _, fg, bg, mono, fgh, bgh = p
+                c = self.colors
+                if c == 1:
+                    return (mono or "default", "default", 1)
+                if c == 16:
+                    return (fg, bg, 16)
+                return (fgh or fg, bgh or bg, c)
+        return None
+
     def resolve(self, key) -> Attr:
         from urwid.display.common import AttrSpec  # noqa: PLC0415
 
@@ -143,7 +260,17 @@ class _Run:
         elif isinstance(key, (tuple, list)):
             fg, bg, c = SPEC_ATTRS[key[1]]
             spec = AttrSpec(fg, bg, c)
+            m = model_attr(fg, bg, c, self.screen.fg_bright_is_bold, self.screen.bg_bright_is_blink)
+            if m is not None:
+                self.res.probe("attr_expected_from_notation_model")
+                return m
         else:
+            desc = self.palette_desc(key)
+            if desc is not None:
+                m = model_attr(*desc, self.screen.fg_bright_is_bold, self.screen.bg_bright_is_blink)
+                if m is not None:
+                    self.res.probe("attr_expected_from_notation_model")
+                    return m
             spec = self.palette_spec(key)
         return expected_attr(spec, self.screen.fg_bright_is_bold, self.screen.bg_bright_is_blink)
 
